@@ -2,7 +2,8 @@
 
 A CLI case is a JSON dict:
 
-  host   'defstr' | 'file' | 'deflist' | 'args' | 'argspar' | 'act'
+  host   'defstr' | 'file' | 'deflist' | 'args' | 'argspar' | 'act' | 'deftsrc' | 'fileapp' | 'env' | 'stdin' |
+         'pstdin' | 'equals' | 'fname' | 'runargs' | 'symargs'
   lead   list of filler lines before the target instruction (varies its line number)
   pre    extra whitespace before the first item
   items  list of  ['tok', [[kind, text], ...]]          kind: n naked, s soft, h hard, us/uh unterminated quote
@@ -11,10 +12,24 @@ A CLI case is a JSON dict:
   seps   separators between items (len(items)-1)
   next   what follows the value: 'eol' | 'arg' | 'option' | 'qreserved' | 'paren' | 'paren_nl'
   tail   trailing whitespace of the last line
+  htail  what follows a here-document start token on its line ('' or white space)
+  end    what follows the target instruction: 'guard' (another instruction) | 'next' (the instruction that observes
+         the value / a phase header, directly) | 'eof_nl' (end of file) | 'eof' (end of file, no final line break)
+  inc    the target instruction is the last one of an included file (error reports must name that file)
+  uws    the Unicode white-space characters (other than blank/tab/LF) the case was built with (informative)
 
 `render` gives the test-case text; nothing here imports exactly_lib.
 """
+import functools
+
 from hypothesis import strategies as st
+
+# Unicode white space that is no blank/tab/CR/LF (vlib/ref/c09_reader.UNICODE_WS lists them all)
+UWS_ALL = ''.join(chr(c) for c in
+                  [0x0b, 0x0c, 0x1c, 0x1d, 0x1e, 0x1f, 0x85, 0xa0, 0x1680] + list(range(0x2000, 0x200b)) +
+                  [0x2028, 0x2029, 0x202f, 0x205f, 0x3000])
+UWS_COMMON = ['\xa0', '\xa0', '\xa0', '\x0c', '\x0b', '\x1f', '\x1c', '\x85', '\u2028', '\u2029', '\u3000', '\u2009',
+              '\u1680', '\u202f']
 
 PRELUDE = [
     '[setup]',
@@ -24,6 +39,7 @@ PRELUDE = [
     "def list L = 'e1' 'e 2'",
     'def list L0 =',
     "def path P = -rel-home 'pp'",
+    "def string U = '\xa0u\u2028'",
 ]
 SYMBOLS = {
     'E': ('string', ''),
@@ -32,27 +48,32 @@ SYMBOLS = {
     'L': ('list', ['e1', 'e 2']),
     'L0': ('list', []),
     'P': ('path', '{HOME}/pp'),
+    'U': ('string', '\xa0u\u2028'),
 }
 GUARD = 'def string GUARD_ = g'
 PROBE_PREFIX = '% {PY} {PROBE} {OBS}/p'
 UPPER = '-transformed-by char-case -to-upper'
+INC_NAME = 'inc.case'
 
-HOSTS = ['defstr', 'file', 'deflist', 'args', 'argspar', 'act']
-STRING_HOSTS = ('defstr', 'file')
-RICH_LIST_HOSTS = ('args', 'argspar', 'act')
+HOSTS = ['defstr', 'file', 'deflist', 'args', 'argspar', 'act', 'deftsrc', 'fileapp', 'env', 'stdin', 'pstdin',
+         'equals', 'fname', 'runargs', 'symargs']
+_HOST_WEIGHTED = (['defstr', 'file', 'deflist', 'args', 'argspar', 'act'] * 3 +
+                  ['deftsrc', 'fileapp', 'env', 'env', 'stdin', 'pstdin', 'equals', 'fname', 'fname', 'runargs',
+                   'symargs', 'symargs'])
+STRING_HOSTS = ('defstr', 'file', 'deftsrc', 'fileapp', 'env', 'stdin', 'pstdin', 'equals', 'fname')
+TEXT_SOURCE_HOSTS = ('file', 'deftsrc', 'fileapp', 'env', 'stdin', 'pstdin', 'equals')
+RICH_LIST_HOSTS = ('args', 'argspar', 'act', 'runargs', 'symargs')
+OBSERVED_LATER = ('defstr', 'deftsrc', 'deflist', 'env')  # the value is observed by a following instruction
+NOT_INCLUDABLE = ('act', 'equals')
 
-SPECIAL_CHARS = ' \t\n\'"@[]#\\=:|(){}!&-<>é'
-REFS = ['@[S]@', '@[L]@', '@[P]@', '@[E]@', '@[L0]@', '@[a_b]@']
+SPECIAL_CHARS = ' \t\n\'"@[]#\\=:|(){}!&-<>é' + UWS_ALL
+REFS = ['@[S]@', '@[L]@', '@[P]@', '@[E]@', '@[L0]@', '@[a_b]@', '@[U]@']
 
 _PLAIN = ['a', 'b', 'a', 'b', 'ab', 'S', '_', 'é']
 _SPECIAL_NAKED = ['@', '[', ']', '#', '#', '\\', '\\', '=', ':', '|', '(', ')', '{', '}', '!', '&', '-', '<', '>',
                   '&&', '||', '-x', '--', ':>', '<<', '@[', ']@', '@[S', 'S]@', '@[]@', '@[S ]@', '@[é]@', '@[SS]@']
 NAKED_ATOMS = _PLAIN * 3 + _SPECIAL_NAKED + REFS * 3
-SOFT_ATOMS = NAKED_ATOMS + [' ', ' ', '  ', '\t', "'", "'", '\n', ' # ', ' = ']
-HARD_ATOMS = NAKED_ATOMS + [' ', ' ', '  ', '\t', '"', '"', '\n', ' # ', ' = ']
-EOL_ATOMS = NAKED_ATOMS + [' ', ' ', '  ', '\t', '"', "'", ' # ', ' = ', '"a b"', "'@[S]@'"]
-LINE_ATOMS = EOL_ATOMS
-
+_QUOTED_EXTRA = [' ', ' ', '  ', '\t', '\n', ' # ', ' = ']
 RESERVED = ['(', ')', '[', ']', '{', '}', '=', '|', ':', '!', '&&', '||']
 MARKERS = ['EOF', 'E-O_F', '0', '-', 'eof', 'X1', 'MARKER_']
 
@@ -61,10 +82,66 @@ def _text(atoms, min_size, max_size):
     return st.lists(st.sampled_from(atoms), min_size=min_size, max_size=max_size).map(''.join)
 
 
-_naked_frag = st.tuples(st.just('n'), _text(NAKED_ATOMS, 1, 4)).map(list)
-_soft_frag = st.tuples(st.just('s'), _text(SOFT_ATOMS, 0, 5)).map(list)
-_hard_frag = st.tuples(st.just('h'), _text(HARD_ATOMS, 0, 5)).map(list)
-_frag = st.one_of(_naked_frag, _soft_frag, _hard_frag)
+def _unterminated(frs_and_q):
+    frs, q, text = frs_and_q
+    return ['tok', frs + [[q, text]]]
+
+
+class _Strategies:
+    """The item strategies for a given tuple of extra (Unicode white-space) characters."""
+
+    def __init__(self, u):
+        ux = []
+        for c in u:
+            ux += [c, c, c + 'a', 'a' + c, 'a' + c + 'b', c + c]
+        weight = 3 if len(u) <= 1 else 2
+        naked = NAKED_ATOMS + ux * weight
+        soft = naked + _QUOTED_EXTRA + ["'", "'"] + [' ' + c for c in u]
+        hard = naked + _QUOTED_EXTRA + ['"', '"'] + [c + ' ' for c in u]
+        eol = naked + [' ', ' ', '  ', '\t', '"', "'", ' # ', ' = ', '"a b"', "'@[S]@'"] + \
+              [' ' + c for c in u] + [c + ' ' for c in u]
+        self.naked_atoms, self.line_atoms = naked, eol
+        naked_frag = st.tuples(st.just('n'), _text(naked, 1, 4)).map(list)
+        soft_frag = st.tuples(st.just('s'), _text(soft, 0, 5)).map(list)
+        hard_frag = st.tuples(st.just('h'), _text(hard, 0, 5)).map(list)
+        frag = st.one_of(naked_frag, soft_frag, hard_frag)
+        special = list(_SPECIAL_TOKENS)
+        for c in u:
+            special += [[['n', c]], [['n', c]], [['n', c + c]], [['n', c + 'a' + c]], [['n', c + 'a' + c + 'b']],
+                        [['n', 'a' + c + 'b' + c]], [['n', c], ['s', 'x y'], ['n', c]], [['s', c]], [['h', c]],
+                        [['s', c + 'a' + c]], [['h', c + 'a' + c]], [['n', c], ['h', '@[S]@']],
+                        [['n', c + '=']], [['n', ')' + c]], [['n', c + '@[L]@']], [['n', '@[L]@' + c]],
+                        [['n', c + ':>']], [['n', ':>' + c]], [['n', '\\' + c]], [['n', c + '\\']],
+                        [['n', c + '@[S]@' + c]], [['n', 'a' + c], ['us', 'b']], [['n', c + '-x']]]
+        self.token = st.one_of(
+            st.lists(frag, min_size=1, max_size=4),
+            st.lists(frag, min_size=2, max_size=3),
+            st.sampled_from(special),
+        )
+        self.tok_item = self.token.map(lambda fr: ['tok', fr])
+        self.bad_tok_item = st.tuples(st.lists(frag, min_size=0, max_size=2), st.sampled_from(['us', 'uh', 'uh']),
+                                      _text(naked + [' ', '\n', ' '], 0, 4)).map(_unterminated)
+        self.eol_item = _text(eol, 0, 6).map(lambda t: ['eol', t])
+        self.here_item = st.sampled_from(MARKERS).flatmap(
+            lambda m: st.tuples(st.just('here'), st.just(m), self._here_lines(m, u),
+                                st.sampled_from([True] * 7 + [False])).map(list))
+        ws1 = [' ', ' ', ' ', ' ', '  ', '\t', ' \t '] + [' ' + c + ' ' for c in u]
+        self.seps_1line = ws1
+        self.seps = ws1 + [' \\\n', ' \\\n  ', '\t\\\n\t', ' \\ \n ', ' \\\n \\\n '] + \
+                    [' \\' + c + '\n ' for c in u] + [' ' + c + '\\\n ' for c in u]
+        self.pre = ['', '', '', ' ', '\t'] + [c + ' ' for c in u] + list(u)
+        self.tail = ['', '', '', ' ', ' \t'] + [' ' + c for c in u] + list(u) + [' ' + c + ' ' for c in u]
+        self.htail = [''] * 6 + [' '] + [' ' + c for c in u] * 2
+
+    def _here_lines(self, marker, u):
+        special = [marker + 'X', ' ' + marker, 'X' + marker, marker + marker, '<<' + marker, marker + ' x',
+                   '\t' + marker, '[act]', '[setup]', '[assert]', '# comment', '#', '', '', '  ', '@[S]@',
+                   "'@[S]@' \"@[L]@\"", 'EOF_', '"', "'", '\\', ' \\', 'def string GUARD_ = g', ')', '-' + marker]
+        for c in u:
+            special += [c, c + marker, c + 'x' + c, 'x' + c + 'y', ' ' + c]
+        line = st.one_of(st.sampled_from(special), st.sampled_from(special), _text(self.line_atoms, 0, 5))
+        return st.lists(line, min_size=0, max_size=5)
+
 
 _SPECIAL_TOKENS = (
         [[['n', w]] for w in RESERVED] +
@@ -81,76 +158,71 @@ _SPECIAL_TOKENS = (
          [['n', ':>']], [['s', ':>']], [['s', '<<EOF']], [['h', '<<EOF']], [['n', 'a=b']], [['n', '=a']],
          [['n', 'a)']], [['n', ')a']], [['n', '(a)']], [['n', '[act]']], [['n', '[setup]']],
          [['s', 'multi\nline']], [['h', 'multi\n[act]\n# c\n\nline']], [['s', ' lead and trail ']],
-         [['n', 'a'], ['us', 'b c']], [['uh', 'b c']], [['us', '']], [['n', 'x'], ['uh', ' @[S]@ ']]])
-
-_token = st.one_of(
-    st.lists(_frag, min_size=1, max_size=4),
-    st.lists(_frag, min_size=2, max_size=3),
-    st.sampled_from(_SPECIAL_TOKENS),
-)
-_tok_item = _token.map(lambda fr: ['tok', fr])
+         [['n', 'a'], ['us', 'b c']], [['uh', 'b c']], [['us', '']], [['n', 'x'], ['uh', ' @[S]@ ']],
+         [['n', '@[S]@'], ['s', '@[S]@'], ['h', '@[S]@'], ['n', '@[S]@']],
+         [['s', '@[L]@'], ['n', '@[L]@']], [['h', 'x'], ['n', '@[P]@'], ['s', 'y']],
+         [['n', 'a@[S]@b@[E]@'], ['h', "@[S]@\"@[S]@\""], ['s', "'@[S]@'"]],
+         [['n', '@[U]@']], [['s', 'x@[U]@']], [['h', '@[U]@']]])
 
 
-def _unterminated(frs_and_q):
-    frs, q, text = frs_and_q
-    return ['tok', frs + [[q, text]]]
+@functools.lru_cache(maxsize=None)
+def _strategies(u) -> _Strategies:
+    return _Strategies(u)
 
 
-_bad_tok_item = st.tuples(st.lists(_frag, min_size=0, max_size=2), st.sampled_from(['us', 'uh', 'uh']),
-                          _text(NAKED_ATOMS + [' ', '\n', ' '], 0, 4)).map(_unterminated)
-
-_eol_item = _text(EOL_ATOMS, 0, 6).map(lambda t: ['eol', t])
-
-
-def _here_lines(marker):
-    special = [marker + 'X', ' ' + marker, 'X' + marker, marker + marker, '<<' + marker, marker + ' x', '\t' + marker,
-               '[act]', '[setup]', '[assert]', '# comment', '#', '', '', '  ', '@[S]@', "'@[S]@' \"@[L]@\"",
-               'EOF_', '"', "'", '\\', ' \\', 'def string GUARD_ = g', ')', '-' + marker]
-    line = st.one_of(st.sampled_from(special), st.sampled_from(special), _text(LINE_ATOMS, 0, 5))
-    return st.lists(line, min_size=0, max_size=5)
-
-
-_here_item = st.sampled_from(MARKERS).flatmap(
-    lambda m: st.tuples(st.just('here'), st.just(m), _here_lines(m),
-                        st.sampled_from([True] * 7 + [False])).map(list))
-
-_SEPS_1LINE = [' ', ' ', ' ', ' ', '  ', '\t', ' \t ']
-_SEPS = _SEPS_1LINE + [' \\\n', ' \\\n  ', '\t\\\n\t', ' \\ \n ', ' \\\n \\\n ']
 _LEADS = ['dir d1', '', '# comment', 'dir d2', '  ', "def string Q = 'it''s'"]
 _NEXT_STRING = ['eol'] * 6 + ['arg', 'arg', 'option', 'option', 'qreserved', 'qreserved', 'paren', 'paren', 'paren_nl']
 _NEXT_LIST = ['eol'] * 6 + ['paren', 'paren_nl']
+_ENDS = ['guard'] * 5 + ['next'] * 3 + ['eof_nl'] * 2 + ['eof'] * 2
+
+_uws = st.one_of(
+    st.just(()), st.just(()), st.just(()),
+    st.sampled_from(UWS_COMMON).map(lambda c: (c,)),
+    st.sampled_from(UWS_COMMON).map(lambda c: (c,)),
+    st.sampled_from(list(UWS_ALL)).map(lambda c: (c,)),
+    st.lists(st.sampled_from(UWS_COMMON), min_size=2, max_size=2, unique=True).map(tuple),
+)
 
 
 @st.composite
 def cli_case(draw, tier='quick'):
-    host = draw(st.sampled_from(HOSTS))
+    host = draw(st.sampled_from(_HOST_WEIGHTED))
+    u = draw(_uws)
+    S = _strategies(u)
     lead = draw(st.lists(st.sampled_from(_LEADS), min_size=0, max_size=3, unique=True))
-    pre = draw(st.sampled_from(['', '', '', ' ', '\t']))
-    tail = draw(st.sampled_from(['', '', '', ' ', ' \t']))
+    pre = draw(st.sampled_from(S.pre))
+    tail = draw(st.sampled_from(S.tail))
+    htail = draw(st.sampled_from(S.htail))
     if host in STRING_HOSTS:
-        k = draw(st.integers(0, 19))
-        item = draw(_bad_tok_item if k == 0 else _eol_item if k <= 3 else _here_item if k <= 7 else _tok_item)
+        k = draw(st.sampled_from([0] + [1, 2, 3] + [4, 5, 6, 7] + list(range(8, 20))))
+        if host == 'fname':
+            k = max(k, 8) if k else 0
+        item = draw(S.bad_tok_item if k == 0 else S.eol_item if k <= 3 else S.here_item if k <= 7 else S.tok_item)
         items = [item]
         seps = []
         nxt = draw(st.sampled_from(_NEXT_STRING))
     else:
         n = draw(st.integers(0, 4))
-        items = [draw(_tok_item) for _ in range(n)]
+        items = [draw(S.tok_item) for _ in range(n)]
         if host in RICH_LIST_HOSTS:
-            k = draw(st.integers(0, 9))
+            k = draw(st.sampled_from(list(range(10))))
             if k == 0:
-                items.append(draw(_eol_item))
+                items.append(draw(S.eol_item))
             elif k == 1 and host != 'act':
-                items.append(draw(_here_item))
-        if draw(st.integers(0, 29)) == 0:
-            items.append(draw(_bad_tok_item))
-        seps = [draw(st.sampled_from(_SEPS_1LINE if host == 'act' else _SEPS)) for _ in range(max(0, len(items) - 1))]
+                items.append(draw(S.here_item))
+        if draw(st.sampled_from(list(range(30)))) == 0:
+            items.append(draw(S.bad_tok_item))
+        seps = [draw(st.sampled_from(S.seps_1line if host == 'act' else S.seps))
+                for _ in range(max(0, len(items) - 1))]
         nxt = 'paren' if host == 'argspar' else draw(st.sampled_from(_NEXT_LIST))
-        if host == 'argspar' and draw(st.integers(0, 4)) == 0:
+        if host == 'argspar' and draw(st.sampled_from(list(range(5)))) == 0:
             nxt = 'paren_nl'
         if host == 'act':
             nxt = 'eol'
-    return {'host': host, 'lead': lead, 'pre': pre, 'items': items, 'seps': seps, 'next': nxt, 'tail': tail}
+    end = draw(st.sampled_from(_ENDS))
+    inc = draw(st.sampled_from([False] * 5 + [True]))
+    return {'host': host, 'lead': lead, 'pre': pre, 'items': items, 'seps': seps, 'next': nxt, 'tail': tail,
+            'htail': htail, 'end': end, 'inc': inc, 'uws': list(u)}
 
 
 # ---- rendering ------------------------------------------------------------------------------------------------
@@ -174,13 +246,13 @@ def normalized_token(frags, last_on_line: bool, first_on_line: bool, one_line: b
         if k in ('us', 'uh'):
             frags[i][0] = k[1]
     # `<<x` written naked is (or resembles) a here-document start: the string `<<x` is written quoted
-    if frags[0][0] == 'n' and frags[0][1].startswith('<<'):
+    if frags[0][0] == 'n' and frags[0][1].lstrip(UWS_ALL).startswith('<<'):
         frags[0][0] = 's'
     # a continuation line that looks like a phase header: not covered by the manual - written quoted
-    if first_on_line and frags[0][0] == 'n' and frags[0][1].startswith('['):
+    if first_on_line and frags[0][0] == 'n' and frags[0][1].lstrip(UWS_ALL).startswith('['):
         frags[0][0] = 's'
     # `b\` at the end of a line: "an unquoted \ at END-OF-LINE" can be read both ways - written quoted
-    if last_on_line and frags[-1][0] == 'n' and frags[-1][1].endswith('\\') and \
+    if last_on_line and frags[-1][0] == 'n' and frags[-1][1].rstrip(UWS_ALL).endswith('\\') and \
             not (len(frags) == 1 and frags[0][1] == '\\'):
         frags[-1][0] = 'h'
     return frags
@@ -203,18 +275,38 @@ def token_text(frags) -> str:
 
 
 def here_text(marker, lines, has_end, start_suffix='') -> str:
-    body = [(l if l != marker else l + '_') for l in lines]
+    # a body line that is the marker, or the marker followed by white space, would be (or might be) the end marker
+    body = [(l if l.rstrip(' \t' + UWS_ALL) != marker else l.rstrip(' \t' + UWS_ALL) + '_') for l in lines]
     return ('<<' + marker + start_suffix + '\n' + ''.join(l + '\n' for l in body) +
             (marker if has_end else 'no-end-' + marker))
 
 
 _PREFIX = {
     'defstr': 'def string X = ',
+    'deftsrc': 'def text-source X = ',
     'file': 'file o = ',
+    'fileapp': 'file o += ',
+    'fname': 'file ',
+    'env': 'env V_ = ',
+    'stdin': 'stdin = ',
+    'pstdin': 'run ' + PROBE_PREFIX + '\n  -stdin ',
+    'equals': 'contents -rel-home exp : equals ',
     'deflist': 'def list X = ',
     'args': PROBE_PREFIX + ' ',
+    'runargs': 'run ' + PROBE_PREFIX + ' ',
+    'symargs': 'run @ PR ',
     'argspar': 'run ( ' + PROBE_PREFIX + ' ',
     'act': PROBE_PREFIX + ' ',
+}
+_BEFORE_TARGET = {
+    'fileapp': ['file o'],
+    'symargs': ['def program PR = ' + PROBE_PREFIX + ' pre1'],
+}
+_OBSERVERS = {
+    'defstr': ['file o = @[X]@'],
+    'deftsrc': ['file o = @[X]@'],
+    'deflist': [PROBE_PREFIX + ' @[X]@'],
+    'env': [PROBE_PREFIX],
 }
 
 
@@ -226,7 +318,7 @@ def effective_next(case) -> str:
         return 'eol'
     if host == 'argspar':
         return 'paren_nl' if (nxt == 'paren_nl' or ends_line) else 'paren'
-    if host in ('deflist', 'args'):
+    if host in ('deflist', 'args', 'runargs', 'symargs'):
         if nxt == 'paren_nl':
             nxt = 'paren'
         if ends_line and nxt == 'paren':
@@ -234,26 +326,44 @@ def effective_next(case) -> str:
         return nxt if nxt in ('eol', 'paren') else 'eol'
     if host == 'defstr' and nxt == 'paren_nl':
         return 'paren'
-    if host == 'file' and ends_line and nxt == 'paren':
+    if host == 'fname':
+        return nxt if nxt in ('eol', 'arg') else 'eol'
+    if host in TEXT_SOURCE_HOSTS and ends_line and nxt == 'paren':
         return 'paren_nl'
     return nxt
 
 
-def render(case):
-    """-> dict(text, target_line, arg_pos, target_end, target, norm_items, next)
+def effective_end(case) -> str:
+    host, end = case['host'], case.get('end', 'guard')
+    if host in OBSERVED_LATER and end in ('eof', 'eof_nl'):
+        return 'next'
+    return end
 
-    text       the test case (placeholders not substituted)
+
+def effective_inc(case) -> bool:
+    return bool(case.get('inc')) and case['host'] not in NOT_INCLUDABLE
+
+
+def render(case):
+    """-> dict(files, src_name, text, target_line, arg_pos, target_end, target, norm_items, next, end, location)
+
+    files      {file name: text} (placeholders not substituted); `t.case` is the test case
+    src_name   the file that contains the target instruction; `text` is its text
     arg_pos    index in text where the reader starts (just after the fixed prefix of the host instruction)
     target_end index just after the last character of the target instruction
+    location   the (file, line) chain an error report for the target instruction must give
     """
     host = case['host']
     one_line = host == 'act'
     items = case['items']
     seps = [(s.replace('\n', ' ').replace('\\', ' ') if one_line else s) for s in case['seps']]
     nxt = effective_next(case)
+    end = effective_end(case)
+    inc = effective_inc(case)
+    text_source = host in TEXT_SOURCE_HOSTS
     # what follows the value on its own line
     if host in STRING_HOSTS:
-        same_line = {'eol': '', 'arg': ' x', 'option': (' ' + UPPER if host == 'file' else ' -opt'),
+        same_line = {'eol': '', 'arg': ' x', 'option': (' ' + UPPER if text_source else ' -opt'),
                      'qreserved': ' ")"', 'paren': ' )', 'paren_nl': ''}[nxt]
     else:
         same_line = {'eol': '', 'paren': ' )', 'paren_nl': ''}[nxt]
@@ -276,71 +386,109 @@ def render(case):
             parts.append(':> ' + t if t else ':>')
         else:
             suffix = same_line
-            if host == 'file' and nxt == 'option':
+            if text_source and nxt == 'option':
                 suffix = ''  # a transformation after a here document is not generated
             norm_items.append(['here', it[1], it[2], it[3]])
-            parts.append(here_text(it[1], it[2], it[3], suffix))
+            parts.append(here_text(it[1], it[2], it[3], suffix + case.get('htail', '')))
             same_line = ''
             tail = ''  # the end marker line is exactly the marker
     value = ''.join(parts)
-    open_par = '( ' if host == 'file' and nxt in ('paren', 'paren_nl') else ''
+    open_par = '( ' if text_source and nxt in ('paren', 'paren_nl') else ''
     next_line = '\n  )' if nxt == 'paren_nl' else ''
     prefix = _PREFIX[host]
     target = prefix + case['pre'] + open_par + value + same_line + tail + next_line
-    lines_before = list(PRELUDE)
+    observers = list(_OBSERVERS.get(host, []))
+    before = list(_BEFORE_TARGET.get(host, []))
+    final_nl = '' if end == 'eof' else '\n'
+    files = {}
     if host == 'act':
-        lines_before += case['lead'][:1] + ['[act]'] + [l for l in case['lead'][1:] if l in ('', '# comment', '  ')]
+        lines_before = PRELUDE + case['lead'][:1] + ['[act]'] + \
+                       [l for l in case['lead'][1:] if l in ('', '# comment', '  ')]
         head = '\n'.join(lines_before) + '\n'
-        text = head + target + '\n'
+        after = {'guard': '\n', 'next': '\n[assert]\nexit-code == 0\n', 'eof_nl': '\n', 'eof': ''}[end]
+        src_name = 't.case'
+    elif host == 'equals':
+        head = '\n'.join(PRELUDE + case['lead'] + ['[assert]']) + '\n'
+        after = {'guard': '\nexit-code == 0\n', 'next': '\n[cleanup]\ndir d9\n', 'eof_nl': '\n', 'eof': ''}[end]
+        src_name = 't.case'
     else:
-        lines_before += case['lead']
-        head = '\n'.join(lines_before) + '\n'
-        observers = [GUARD]
-        if host == 'defstr':
-            observers.append('file o = @[X]@')
-        elif host == 'deflist':
-            observers.append(PROBE_PREFIX + ' @[X]@')
-        text = head + target + '\n' + '\n'.join(observers) + '\n[act]\n$ true\n'
+        top = ['[act]', PROBE_PREFIX + ' act'] if host == 'stdin' else []
+        closing = '' if host == 'stdin' else '[act]\n$ true\n'
+        if inc:
+            inc_head = '\n'.join(case['lead'] + before) + '\n' if (case['lead'] or before) else ''
+            files[INC_NAME] = inc_head + target + final_nl
+            main_lines = top + PRELUDE + ['including ' + INC_NAME, GUARD] + observers
+            files['t.case'] = '\n'.join(main_lines) + '\n' + closing
+            head, after, src_name = inc_head, final_nl, INC_NAME
+            including_line = len(top) + len(PRELUDE) + 1
+        else:
+            head = '\n'.join(top + PRELUDE + case['lead'] + before) + '\n'
+            if end == 'guard':
+                after = '\n' + '\n'.join([GUARD] + observers) + '\n' + closing
+            elif end == 'next':
+                after = '\n' + ''.join(o + '\n' for o in observers) + (closing or '[assert]\nexit-code == 0\n')
+            else:
+                after = final_nl
+            src_name = 't.case'
+    text = head + target + after
+    files.setdefault(src_name, text)
+    target_line = head.count('\n') + 1  # first line of the instruction
+    location = [[src_name, target_line]]
+    if inc and host not in NOT_INCLUDABLE:
+        location = [['t.case', including_line]] + location
     return {
+        'files': files,
+        'src_name': src_name,
         'text': text,
-        'target_line': head.count('\n') + 1,
+        'target_line': target_line,
         'arg_pos': len(head) + len(prefix),
         'target_end': len(head) + len(target),
         'target': target,
         'norm_items': norm_items,
         'next': nxt,
+        'end': end,
+        'inc': inc,
+        'location': location,
     }
 
 
 # ---- raw sources for the tokenizer layer ---------------------------------------------------------------------
 _RAW_ALPHABET = list('abS_é') + list(' \t\n') * 3 + list('\'"') * 3 + list('@[]#\\=:|(){}!&-<>') + ['#', '\\', '@[S]@']
-_raw_text = st.lists(st.sampled_from(_RAW_ALPHABET), min_size=0, max_size=24).map(''.join)
-
 _TOK_SEPS = [' ', ' ', '  ', '\t', '\n', '\n', ' \n', '\n ', ' \\\n ', '\n\n', ' # ', '\n#c\n']
 
 
+def _raw_text(u):
+    return st.lists(st.sampled_from(_RAW_ALPHABET + list(u) * 4), min_size=0, max_size=24).map(''.join)
+
+
 @st.composite
-def _structured_source(draw):
+def _structured_source(draw, u):
+    S = _strategies(u)
+    seps = _TOK_SEPS + [c for c in u] + [' ' + c for c in u] + [c + '\n' for c in u] + [' ' + c + '\n' for c in u] + \
+           ['\r', '\r\n']
     n = draw(st.integers(0, 6))
-    out = [draw(st.sampled_from(['', '', ' ', '\n', '\t']))]
+    out = [draw(st.sampled_from(['', '', ' ', '\n', '\t'] + list(u)))]
     for i in range(n):
         k = draw(st.integers(0, 11))
         if k == 0:
-            fr = draw(_bad_tok_item)[1]
+            fr = draw(S.bad_tok_item)[1]
         else:
-            fr = draw(_token)
+            fr = draw(S.token)
         fr = _merge_naked([[a, b] for a, b in fr])
         for j, (kk, t) in enumerate(fr[:-1]):
             if kk in ('us', 'uh') and k != 0:
                 fr[j][0] = kk[1]
         out.append(token_text(fr))
-        out.append(draw(st.sampled_from(_TOK_SEPS)))
+        out.append(draw(st.sampled_from(seps)))
     if draw(st.booleans()) and out:
         out.pop()
     return ''.join(out)
 
 
 def tok_case(tier='quick'):
-    src = st.one_of(_structured_source(), _structured_source(), _raw_text)
-    ops = st.lists(st.sampled_from([0, 0, 0, 0, 1, 2]), min_size=0, max_size=10)
-    return st.fixed_dictionaries({'src': src, 'ops': ops})
+    def for_u(u):
+        src = st.one_of(_structured_source(u), _structured_source(u), _raw_text(u))
+        ops = st.lists(st.sampled_from([0, 0, 0, 0, 1, 2]), min_size=0, max_size=10)
+        return st.fixed_dictionaries({'src': src, 'ops': ops})
+
+    return _uws.flatmap(for_u)
